@@ -132,13 +132,27 @@ impl Prop for C16Prop {
         "C16"
     }
     fn rule(&self) -> String {
-        "Cases are call histories: 200..1000 (quick) / up to 5000 (thorough) calls (evaluator, expression, placeholder) drawn from a per-history dictionary of 12..60 expressions (well-formed with and without @, error-producing, malformed for the parser and for the lexer (1.2.3, 1..5, stray characters), aggregates around failing arguments and around nested aggregates, whitespace of several kinds sprinkled into a third of the entries, plus 1..3 argument sweeps: one function - Lambert W weighted - at 3..6 nearby arguments) so that keys repeat, each reused with changing placeholders and interleaved across all five evaluators; the whole history is one generated value (a choice sequence) and shrinks as one. Oracle (no-state model): every occurrence of a key must return, bit for bit, the outcome of its isolated first-time evaluation, computed by a fresh child process making exactly that one call. The history is run sequentially in-process, then replayed concurrently by 16 threads each starting at a different rotation, then every thread evaluates the deepest inputs 256 characters allow at the same time as the others (process-wide counters), then hammers one expression with different placeholders. One call in five is followed by an immediate repeat of the same expression with a placeholder pair that compares equal but differs (0.0/-0.0, 2/2.00, Integer 3/Float 3.0). non-trivial = an occurrence whose expression occurred earlier in the history with a different placeholder or evaluator, or that directly follows an Err-producing call; distinct by (key, predecessor key). evaluations counts library calls (sequential + concurrent + child processes).".into()
+        "Cases are call histories: 200..1000 (quick) / up to 5000 (thorough) calls (evaluator, expression, placeholder) drawn from a per-history dictionary of 12..60 expressions (well-formed with and without @, error-producing, malformed for the parser and for the lexer (1.2.3, 1..5, stray characters), aggregates around failing arguments and around nested aggregates, whitespace of several kinds sprinkled into a third of the entries, plus 1..3 argument sweeps: one function - Lambert W weighted - at 3..6 nearby arguments) so that keys repeat, each reused with changing placeholders and interleaved across all five evaluators; the whole history is one generated value (a choice sequence) and shrinks as one. Oracle (no-state model): every occurrence of a key must return, bit for bit, the outcome of its isolated first-time evaluation, computed by a fresh child process making exactly that one call. The history is run sequentially in-process, then replayed concurrently by 16 threads each starting at a different rotation, then every thread evaluates the deepest inputs 256 characters allow at the same time as the others (process-wide counters), then hammers one expression with different placeholders. One call in five is followed by an immediate repeat of the same expression with a placeholder pair that compares equal but differs (0.0/-0.0, 2/2.00, Integer 3/Float 3.0). Sub-check after-failures: for every evaluator, every kind of failing call (lexer, parser, evaluation error under every operator and function form) is made 1100 times in a row and a set of plain expressions must then answer as in a fresh process. non-trivial = an occurrence whose expression occurred earlier in the history with a different placeholder or evaluator, or that directly follows an Err-producing call; distinct by (key, predecessor key). evaluations counts library calls (sequential + concurrent + child processes).".into()
     }
     fn assumptions(&self) -> Vec<String> {
         vec!["thread interleavings are whatever the OS produces under 16-way contention (not enumerated): the crate uses no synchronisation primitive a schedule explorer could intercept".into()]
     }
     fn subs(&self, tier: Tier) -> Vec<Sub> {
-        vec![Sub { name: "history", kind: SubKind::Random { cases: tier.pick(48, 1600), len: tier.pick(3000, 12000) as usize } }]
+        let n: u64 = Ev::ALL.iter().map(|ev| (failing_templates(*ev).len() * probe_expressions(*ev).len()) as u64).sum();
+        vec![Sub { name: "history", kind: SubKind::Random { cases: tier.pick(48, 1600), len: tier.pick(3000, 12000) as usize } }, Sub { name: "after-failures", kind: SubKind::Enum { count: n } }]
+    }
+    fn gen_enum(&self, _sub: &str, mut idx: u64, _tier: Tier) -> Option<Case> {
+        for ev in Ev::ALL {
+            let (ts, ps) = (failing_templates(ev), probe_expressions(ev));
+            let n = (ts.len() * ps.len()) as u64;
+            if idx < n {
+                let mut case = Case::new(ev, ps[idx as usize % ps.len()].to_string(), Val::default_for(ev));
+                case.aux = vec!["after-failures".into(), ts[idx as usize / ps.len()].clone()];
+                return Some(case);
+            }
+            idx -= n;
+        }
+        None
     }
     fn gen(&self, _sub: &str, c: &mut dyn Choices) -> Option<Case> {
         let nd = 12 + c.below(29) as usize;
@@ -181,6 +195,23 @@ impl Prop for C16Prop {
         Some(case)
     }
     fn check(&self, _sub: &str, case: &Case, sc: &mut ShardCtx) -> Result<(), Failure> {
+        if case.aux.first().map(|s| s == "after-failures").unwrap_or(false) {
+            // 1100 failing calls of one kind, then a plain call: it must answer as in a fresh process
+            let key: Key = (case.ev, case.ph.enc(), case.input.clone());
+            let want = match isolated(&key) {
+                Some(w) => w,
+                None => return Ok(()),
+            };
+            exhaust(sc, case.ev, &case.aux[1], &case.ph);
+            let got = call(&key);
+            sc.evals(1);
+            if got != want {
+                return Err(Failure::new(format!("history/after-failures/{}", case.ev.name()), format!("{} (isolated first-time evaluation)", want), format!("{} after {} consecutive calls of {:?}", got, EXHAUST_CALLS, case.aux[1])));
+            }
+            sc.class("after-failures");
+            sc.nontrivial(case.hash(), || serde_json::json!({"evaluator": case.ev.name(), "failing_call": case.aux[1], "then": case.input, "outcome": got}));
+            return Ok(());
+        }
         let hist = parse_history(&case.aux);
         if hist.is_empty() {
             return Ok(());
